@@ -56,3 +56,8 @@ void _ZNK7QString3argERKS_i5QChar(char *ret, char *self, char *a, uint32_t w, ui
 void _ZN7QString23toLatin1_helper_inplaceERS_(char *ret, char *self) { QAD *s = *(QAD**)self; to8(ret, qs_chars(s), s->f1, 0x100); }
 /* QDate::fromString(text, format) (vCard BDAY): date syntax is Qt's; the null date */
 uint64_t _ZN5QDate10fromStringERK7QStringS2_(char *s, char *fmt) { return 0x8000000000000000ULL; }
+/* QMap<K,V>: only the shared empty representation (static reference count -1) is needed: maps are default-constructed and destroyed, never
+   filled (QXmppElementPrivate::attributes of the empty payload element); any real tree operation is left unmodelled (flagged if reached) */
+#ifdef HAVE_G__ZN12QMapDataBase11shared_nullE
+GT__ZN12QMapDataBase11shared_nullE G__ZN12QMapDataBase11shared_nullE = { {{{{ (uint32_t)-1 }}}}, 0, { 0, 0, 0 }, 0 };
+#endif
